@@ -97,6 +97,26 @@ def s11(chk: Check, proj: Project, w) -> None:
     chk.ob("S11", "slots:resolve_fills:discovery-every-render", m.loc(stores[0]) if stores else (m.loc(ex[0]) if ex else m.loc(f)), ok,
            "_extract_fill_content(...) runs unconditionally and nothing is stored on the NodeList" if ok else
            f"`{short(enclosing_stmt(stores[0])) if stores else 'the discovery call is conditional'}`: the outcome of one render's fill discovery is remembered on the tag's NodeList, which every later render of the same node (a loop, a re-used Template) shares - after one render without an active fill the slot shows its default for good and is_filled stays false")
+    # two fills are duplicates only if their NAMES are equal (the escaped form used for is_filled maps `col-a` and `col_a` to one key)
+    em, ef = proj.func("slots", "_extract_fill_content")
+    chk.analysed(fkey(em, ef))
+    tests = [c for c in ast.walk(ef) if isinstance(c, ast.Compare) and isinstance(c.ops[0], (ast.In, ast.NotIn)) and "seen" in norm(c.comparators[0])]
+    adds = [c for c in calls(ef, "add") if "seen" in norm(c.func.value)]  # type: ignore[union-attr]
+    if not tests or not adds:
+        chk.undecided("S11", "slots:_extract_fill_content:duplicates-by-raw-name", em.loc(ef), "seen-set test / add not found")
+    else:
+        keys = [tests[0].left, adds[0].args[0]]
+        raw = []
+        for k in keys:
+            v = k
+            if isinstance(k, ast.Name):
+                d = [x for _s, x in assignments(ef, k.id) if x is not None]
+                v = d[0] if len(d) == 1 else k
+            raw.append(isinstance(v, ast.Attribute) and v.attr == "name" and not any(isinstance(y, ast.Call) for y in ast.walk(v)))
+        okd = all(raw)
+        chk.ob("S11", "slots:_extract_fill_content:duplicates-by-raw-name", em.loc(tests[0]), okd,
+               "the duplicate test and the seen-set both use `<fill>.name` as it is" if okd else
+               f"the duplicate test compares `{short(keys[0])}` (a transformed name): fills for two DIFFERENT slots whose names differ only in non-word characters (`col-a`, `col_a`) raise a spurious 'Multiple fill tags cannot target the same slot name', while the same fills given through Component.render(slots=...) work")
     pm, pf = proj.func("perfutil.component", "component_post_render")
     tree_fn = None
     for c in calls(pf):
